@@ -5,7 +5,7 @@ from vlib import core
 
 PID = "C08"
 ENTRIES = {"glob_re": ("Glob.Entry", "entry_glob_re"), "glob_m": ("Glob.Entry", "entry_glob_m"),
-           "glob_ms": ("Glob.Entry", "entry_glob_ms")}
+           "glob_ms": ("Glob.Entry", "entry_glob_ms"), "glob_fs": ("Glob.Entry", "entry_glob_fs")}
 TRUSTED = [
     "modelled, not verified: brush-parser/src/pattern.rs (the whole PEG pattern_to_regex_translator), brush-core/src/patterns.rs "
     "(to_regex_str, exactly_matches, Pattern::expand component walk / dot-file policy / sort), brush-core/src/regex.rs "
@@ -266,9 +266,9 @@ class Verdict:
     def spec_violations(self):
         out = []
         for kid, l in self.known_seen.items():
-            l.sort(key=lambda r: (len(r["input"]["pattern"]) + len(r["input"]["subject"])))
+            l.sort(key=lambda r: (len(r["input"].get("pattern", "")) + len(r["input"].get("subject", ""))))
             out += l[:3]
-        self.unknown.sort(key=lambda r: (len(r["input"]["pattern"]) + len(r["input"]["subject"])))
+        self.unknown.sort(key=lambda r: (len(r["input"].get("pattern", "")) + len(r["input"].get("subject", ""))))
         return out + self.unknown[:20]
 
 
@@ -489,8 +489,108 @@ def run(ctx):
 
 # ------------------------------------------------------------------ pathname expansion
 
+FS_NAMES = ["a", "b", "ab", ".a", ".b", "a-", "a.b", "é", "B", "d/", "d-/", ".d/", "d/a", "d/.a", "d/b", "d-/a", "d-/ab", ".d/a", ".d/.b", "-", "a b"]
+FS_COMPS = ["*", "?", "a*", "*a", ".*", ".?", "[ab]", "[!a]*", "?(a)b", "@(a|b)", "+(a)", "*(a|b)", "d*", "d", ".d", "a", "*b", "[.]*", "??", "*-", "é", "[a-z]*", "*.*"]
+KF_SORT = "KF-C08-multilevel-sort"
+
+
+def bash_expand(cases):
+    """cases: (opts, pattern, names) -> list of word lists, by bash in real directories"""
+    import tempfile, shutil
+    base = os.path.join(core.SCRATCH, "c08bash-%d" % os.getpid())
+    shutil.rmtree(base, ignore_errors=True)
+    os.makedirs(base, exist_ok=True)
+    sc = []
+    for k, (o, p, names) in enumerate(cases):
+        d = os.path.join(base, str(k))
+        os.makedirs(d)
+        for n in names:
+            path = os.path.join(d, n)
+            if n.endswith("/"):
+                os.makedirs(path, exist_ok=True)
+            else:
+                os.makedirs(os.path.dirname(path), exist_ok=True)
+                open(path, "w").close()
+        sc.append("cd %s; shopt -%s extglob; shopt -%s dotglob; shopt -%s nocaseglob; IFS=; p=%s; printf '%%s\\0' $p; printf '\\n'" % (
+            ansi(d), "s" if "e" in o else "u", "s" if "d" in o else "u", "s" if "i" in o else "u", ansi(p)))
+    env = dict(os.environ)
+    env["LC_ALL"] = "C.utf8"
+    pr = subprocess.run(["/usr/bin/bash", "--norc", "--noprofile", "-s"], input=("\n".join(sc) + "\n").encode(), stdout=subprocess.PIPE,
+                        stderr=subprocess.DEVNULL, env=env)
+    shutil.rmtree(base, ignore_errors=True)
+    outs = pr.stdout.decode("utf-8", "replace").split("\0\n")
+    return [o.split("\0") for o in outs[:len(cases)]]
+
+
 def run_fs(ctx, V):
-    return {"evaluations": 0, "distinct_nontrivial": 0, "notes": {}}
+    rng = ctx.rng
+    cases = []
+    n = 400 if ctx.quick else 6000
+    for _ in range(n):
+        names = rng.sample(FS_NAMES, rng.randrange(2, 9))
+        depth = 1 if rng.random() < 0.6 else 2
+        comps = [rng.choice(FS_COMPS) for _ in range(depth)]
+        if depth == 2 and rng.random() < 0.5:
+            comps[0] = rng.choice(["d", "*", "d*", ".d", ".*", "?", "[d]*", "d-"])
+        o = "e" + ("d" if rng.random() < 0.25 else "")
+        cases.append([o, "/".join(comps)] + names)
+
+    def shopts(o):
+        return ",".join(x for x, f in (("extglob", "e" in o), ("dotglob", "d" in o), ("nocaseglob", "i" in o)) if f)
+    impl = ctx.impl("glob_fs", [[shopts(c[0])] + c[1:] for c in cases])
+    model = ctx.model("glob_fs", cases)
+    bash = bash_expand([(c[0], c[1], c[2:]) for c in cases])
+    nontriv = set()
+    unm = 0
+    for c, il, ml, bw in zip(cases, impl, model, bash):
+        code = dec1(il) if il and not il.startswith(("PANIC", "DIED", "TIMEOUT")) else ["?" + il[:40]]
+        mf = dec1(ml)
+        if ["||"] and "||" in mf:
+            k = mf.index("||")
+            mw, sw = mf[:k], mf[k + 1:]
+        else:
+            V.mism.append({"what": "glob_fs", "pattern": c[1], "why": "model gave no answer %r" % ml[:80]})
+            continue
+        if len(code) > 1 or code != [c[1]]:
+            nontriv.add((c[1], tuple(sorted(c[2:]))))
+        if mw == ["?unmodelled"]:
+            unm += 1
+        elif code != mw:
+            V.mism.append({"what": "glob_fs", "opts": c[0], "pattern": c[1], "names": c[2:], "code": code, "model": mw})
+        if code != sw:
+            rec = {"input": {"op": "pathname expansion", "opts": c[0], "pattern": c[1], "names": c[2:]},
+                   "why": "code gives %r, specification %r, bash %r" % (code, sw, bw), "code": code, "spec": sw, "bash": bw}
+            if bw == code:
+                if len(V.bash_disagree) < 40:
+                    V.bash_disagree.append(rec)
+            elif sorted(code) == sorted(sw) and "/" in c[1]:
+                rec["known"] = KF_SORT
+                V.known_seen.setdefault(KF_SORT, []).append(rec)
+            else:
+                flags = None
+                # matching-level classes apply to pathname expansion too: ask the runner for the class flags of each component
+                V.fs_pending = getattr(V, "fs_pending", []) + [rec]
+    # classify the remaining differences by the matching classes of their components
+    pend = getattr(V, "fs_pending", [])
+    if pend:
+        comps = [[r["input"]["opts"].replace("d", ""), comp] for r in pend for comp in r["input"]["pattern"].split("/")]
+        fl = ctx.model("glob_re", comps)
+        it = iter(fl)
+        for r in pend:
+            kid = None
+            for comp in r["input"]["pattern"].split("/"):
+                f = dec1(next(it))
+                flags = f[3] if len(f) > 3 else "00000"
+                for kk in KF_PRIORITY:
+                    if flags[kk] == "1" and kid is None:
+                        kid = KFS[kk]
+            if kid:
+                r["known"] = kid
+                V.known_seen.setdefault(kid, []).append(r)
+            else:
+                V.unknown.append(r)
+    return {"evaluations": len(cases), "distinct_nontrivial": len(nontriv),
+            "notes": {"pathname_cases_outside_modelled_domain": unm}}
 
 
 def search(ctx, res):
@@ -540,7 +640,7 @@ def search(ctx, res):
                         break
         specv.append(rec)
     unknown = [r for r in specv if "known" not in r]
-    unknown.sort(key=lambda r: len(r["input"]["pattern"]) + len(r["input"]["subject"]))
+    unknown.sort(key=lambda r: len(r["input"].get("pattern", "")) + len(r["input"].get("subject", "")))
     seen, keep = set(), []
     for r in specv:
         if "known" in r and r["known"] not in seen:
